@@ -303,7 +303,8 @@ def check_model(R, xml, tags, states, P, x64=True, detail_base=None):
         mjxrepo.set_state_dict(m, dcs, st)
         mj.mj_step(m, dcs)
         if not (np.all(np.isfinite(dcf.qacc)) and np.all(np.isfinite(dcs.qpos)) and np.abs(dcf.qacc).max() < 1e6
-                and np.all(np.isfinite(dcs.qvel)) and np.abs(dcs.qvel).max() < 1e4):
+                and np.all(np.isfinite(dcs.qvel)) and np.abs(dcs.qvel).max() < 1e4
+                and (dcf.nefc == 0 or (np.all(np.isfinite(dcf.efc_force)) and np.abs(dcf.efc_force).max() < 1e6))):
             P.count("skipped_c_engine_unstable")
             continue
         try:
@@ -521,6 +522,10 @@ def _known_causes(R, m, dcf, dxf, tags):
             out.append(("sensor-cutoff-not-applied-to-framelinacc-frameangacc",
                         lambda f: f in ("sensor_framelinacc", "sensor_frameangacc")))
             break
+    if int(m.opt.cone) == int(mj.mjtCone.mjCONE_ELLIPTIC) and (np.any(np.array(m.geom_margin) > 0) or
+                                                             (m.npair and np.any(np.array(m.pair_margin) > 0))):
+        out.append(("elliptic-friction-rows-report-contact-margin-in-efc_pos-and-efc_margin",
+                    lambda f: f in ("efc_pos", "efc_margin")))
     if int(dxf._impl.nefc) == 0:
         acc = set()
         for i in range(m.nsensor):
@@ -566,7 +571,7 @@ def worker(case):
 
 
 def _cases(ctx):
-    n = ctx.pick(16, 400)
+    n = ctx.pick(16, 240)
     cases = []
     profs = ["contact", "constrained", "contact", "smooth", "gate", "contact", "constrained", "contact"]
     for i in range(n):
